@@ -18,6 +18,8 @@ def load(path):
     if os.path.basename(path) == "meta.json" and "edits" not in m:
         d = os.path.dirname(os.path.abspath(path))
         return {"id": "seeded:" + os.path.basename(d), "property": [m["property"]], "kind": "break", "expect": "", "patch": os.path.join(d, "patch.diff"), "why": m.get("needs_to_manifest", "")}
+    if m.get("patch") and not os.path.isabs(m["patch"]):
+        m["patch"] = os.path.join(V, m["patch"])
     return m
 
 
